@@ -10,8 +10,8 @@ from common import out, rng, scratch, VERIF
 TRUSTED = ['Lean 4.33 kernel (core only)', 'axioms ⊆ {propext, Quot.sound, Classical.choice}', 'effect model Det.* with an abstract deterministic PRNG; memo model Cache.*',
            'static extractor translator/cachesites.py of memoisation / carried-state sites (audited list in Props/C11.lean)',
            'static site-table extractor translator/rngsites.py (validated on every run against the call sites observed at run time)',
-           'partial: PRNG quality ("different seeds give different outputs", Mersenne Twister) and OS-level nondeterminism are outside the model; xpobssim is driven with a synthetic timeline '
-           '(replica of its DU loop); xpcalib and xpphotonlist cannot run offline (ephemeris / calibration ROI): covered by the static table only']
+           'partial: PRNG quality ("different seeds give different outputs", Mersenne Twister) and OS-level nondeterminism are outside the model; xpobssim is run as the real application with the '
+           'orbit propagator stubbed (and, for the option histories, as a replica of its DU loop with a synthetic timeline); xpcalib and xpphotonlist cannot run offline (ephemeris / calibration ROI): covered by the static table only']
 COLS_SKIP = ()
 
 
@@ -136,6 +136,44 @@ def histories_obssim(chk, g, d):
             chk.fail('impl', '%s: seeds %d and %d give identical tables' % (config, seed, seed + 7), dict(oracle='seed-changes', config=config))
 
 
+def histories_app(chk, g, d, budget=1):
+    """the real application `xpobssim()` (its own seeding, loop over the detector units and overwrite logic), only the orbit propagator replaced:
+    a run from scratch, the same run *resumed* (the file of DU 1 already in place, `--overwrite False`: that unit is skipped), the same run again in
+    the same process; a configuration with an instrumental background long enough for its sampler to leave its small-sample regime"""
+    import shutil
+    import simdrive
+    for j in range(budget):
+        config = 'toy_point_source_bkg.py' if j % 2 == 0 else str(g.choice(['toy_point_source.py', 'toy_multiple_sources.py']))
+        duration = 20000. if j % 2 == 0 else 400.
+        seed = int(g.integers(1, 10 ** 6))
+        orbit = dict(saa=[(0.31 * duration, 0.35 * duration)], occ=[(0.6 * duration, 0.68 * duration)])
+        extra = ['--saa', 'True', '--occult', 'True']
+        dirs = [os.path.join(d, 'app%d_%s' % (j, x)) for x in 'abc']
+        for x in dirs:
+            os.makedirs(x)
+        run = lambda folder: simdrive.app_run(simdrive.config_path(config), os.path.join(folder, 'sim'), duration=duration, seed=seed, overwrite=False, extra=extra, **orbit)   # noqa
+        fa = run(dirs[0])
+        da = [table_digest(f) for f in fa]
+        chk.case(dict(op='xpobssim-app', config=config, seed=seed, history='from scratch'), nontrivial=False)
+        if len(set(da)) != 3:
+            chk.fail('impl', 'xpobssim %s seed %d: two detector units produced identical event tables (same stream)' % (config, seed), dict(oracle='app-du-streams', config=config, seed=seed))
+        shutil.copy(fa[0], os.path.join(dirs[1], os.path.basename(fa[0])))
+        fb = run(dirs[1])
+        db = [table_digest(f) for f in fb]
+        chk.case(dict(op='xpobssim-app', config=config, seed=seed, history='resumed: the DU 1 file in place, overwrite False'), nontrivial=True)
+        if db != da:
+            bad = [i + 1 for i in range(3) if db[i] != da[i]]
+            chk.fail('impl', 'xpobssim %s with seed %d: the tables of DU %s of a resumed run (DU 1 file already in place, --overwrite False) differ from those of the run from scratch' % (
+                config, seed, bad), dict(oracle='app-resume', config=config, seed=seed))
+        if chk.tier != 'quick' or j > 0:
+            fc = run(dirs[2])
+            chk.case(dict(op='xpobssim-app', config=config, seed=seed, history='the same run again in the same process'), nontrivial=True)
+            if [table_digest(f) for f in fc] != da:
+                chk.fail('impl', 'xpobssim %s with seed %d: a second run in the same process differs from the first' % (config, seed), dict(oracle='app-rerun', config=config, seed=seed))
+        for x in dirs:
+            shutil.rmtree(x, ignore_errors=True)
+
+
 def histories_options(chk, g, d):
     """runs with rarely used options whose state lives in module-level caches: gray-filter responses after the standard ones (and the
     reverse), GEM charging twice in a row on the same detector unit"""
@@ -240,10 +278,16 @@ def main(chk):
     g = rng('C11')
     with scratch() as d:
         histories_obssim(chk, g, d)
+        histories_app(chk, g, d, 1 if chk.tier == 'quick' else 4)
         histories_options(chk, g, d)
         post_apps(chk, g, d)
         dynamic_sites(chk, d)
-    return chk.finish(level='proof', trusted=TRUSTED, search=None)
+
+    def search(k):
+        with scratch() as d2:
+            histories_app(chk, rng('C11-search'), d2, 3)
+            histories_obssim(chk, rng('C11-search2'), d2)
+    return chk.finish(level='proof', trusted=TRUSTED, search=search)
 
 
 def replay(body):
